@@ -159,13 +159,13 @@ def gen_from(c, depth, loop_depth, fn_ret):
         pre = [("decl", sv, None, I(g.int(1, 3)), ())]
         sc.declare(sv, "int")
         sc.protected.add(sv)
-    namek = g.weighted([(3, "anon"), (4, "named"), (2 if sc.in_current_block("int") else 0, "collide")])
+    namek = g.weighted([(3, "anon"), (4, "named"), (2 if sc.assignable("int") else 0, "collide")])
     name = None
     if namek == "named":
         name = g.fresh("n")
     elif namek == "collide":
-        name = g.choice(sc.in_current_block("int"))
-        g.label("from:collide-same-block")
+        name = g.choice(sc.assignable("int"))
+        g.label("from:collide-same-block" if name in sc.in_current_block("int") else "from:collide-outer-block")
     g.label("from:" + ("through" if inclusive else "to") + ":" + stepk + ":" + namek)
     sc.push_block()
     if namek == "named":
